@@ -6,7 +6,7 @@
    are re-proved against the current source each time.  [carries_ref], [appropriate], [known_row]
    are the hand-written specification C07/Spec.v. *)
 From Coq Require Import String.
-From FB Require Import C07.Model C07.Spec C07.Theory C07.WithC06 C07.Tree C07.TreeTheory.
+From FB Require Import C07.Model C07.Spec C07.Theory C07.WithC06 C07.Tree C07.TreeTheory C07.EntryNames C07.Laws C07.Laws2 C07.Occ.
 
 (* Th 1: every position that carries a class / field / method reference is rebuilt with the
    remapper method appropriate for it (outside the rows recorded as known findings: none today) *)
@@ -233,3 +233,191 @@ Theorem C07_shape_and_opaque_leaves_preserved_full :
     same_shape v v' = true /\ opaques v' = opaques v.
 Proof. exact remap_val_shape_full. Qed.
 Print Assumptions C07_shape_and_opaque_leaves_preserved_full.
+
+(* ------------------------------------------------------------------ *)
+(* Entry names, continued (C07/EntryNames.v) *)
+
+(* a directory entry (name ending in `/`) keeps its name, whatever the remapper answers — also `x.class/` *)
+Theorem C07_entry_name_dir : forall R p, entry_name R (p ++ [slash]) = Ok (p ++ [slash]).
+Proof. exact entry_name_dir. Qed.
+Print Assumptions C07_entry_name_dir.
+
+(* an entry is renamed by its WHOLE path: `META-INF/versions/9/a/B.class` is the class `META-INF/versions/9/a/B` *)
+Theorem C07_entry_name_path :
+  forall R prefix base,
+    entry_name R (prefix ++ base ++ dot_class) =
+    match map_class R (prefix ++ base) with Ok n => Ok (n ++ dot_class) | Err => Err end.
+Proof. exact entry_name_path. Qed.
+Print Assumptions C07_entry_name_path.
+
+(* "each class entry is stored under the name of its remapped class": holds for an entry named by its class … *)
+Theorem C07_stored_under_remapped_class :
+  forall R cls, stored_under_remapped_class R (cls ++ dot_class) cls.
+Proof. exact stored_under_remapped_class_holds. Qed.
+Print Assumptions C07_stored_under_remapped_class.
+
+(* … and is refuted for the multi-release layout (the class inside is renamed, the entry stays): the unrestricted
+   clause [stored_under_remapped_class_full] (C07/EntryNames.v) is an unproved Definition *)
+Theorem C07_multi_release_entry_not_moved :
+  exists R prefix cls,
+    map_class R cls <> Ok cls /\
+    entry_name R (prefix ++ cls ++ dot_class) = Ok (prefix ++ cls ++ dot_class) /\
+    ~ stored_under_remapped_class R (prefix ++ cls ++ dot_class) cls.
+Proof. exact multi_release_entry_not_moved. Qed.
+Print Assumptions C07_multi_release_entry_not_moved.
+
+(* distinct input names and a remapper that is injective on the jar's class entries give distinct output names (a class
+   entry never lands on the name of a non-class entry) … *)
+Theorem C07_entry_names_distinct :
+  forall R names outs, NoDup names -> injective_on R names -> names_spec R names = Ok outs -> NoDup outs.
+Proof. exact entry_names_distinct. Qed.
+Print Assumptions C07_entry_names_distinct.
+
+(* … so the entry loop needs no hypothesis on its OUTPUT *)
+Theorem C07_remap_entries_injective :
+  forall (A B : Type) (R : remapper) (f : str -> A -> res B) (es : list (str * A)) (l : list (str * B)),
+    NoDup (map fst es) -> injective_on R (map fst es) ->
+    entries_spec R f es = Ok l -> remap_entries R f es = Ok l.
+Proof. exact remap_entries_injective. Qed.
+Print Assumptions C07_remap_entries_injective.
+
+Theorem C07_entry_examples : entry_examples_stmt.
+Proof. exact entry_examples. Qed.
+Print Assumptions C07_entry_examples.
+
+(* ------------------------------------------------------------------ *)
+(* Laws of remapping whole trees (C07/Laws.v) *)
+
+(* IDENTITY: a remapper that renames nothing leaves every well-typed tree as it is — for the specification over any
+   type definitions with pairwise distinct field names … *)
+Theorem C07_spec_identity :
+  forall defs S R, renames_nothing R -> defs_nodup defs = true ->
+    forall v T ctx v', has_ty defs T v = true -> spec_val defs S R ctx T v = Ok v' -> v' = v.
+Proof. exact spec_val_identity_typed. Qed.
+Print Assumptions C07_spec_identity.
+
+(* … and for the interpreter of the table regenerated from remap.rs *)
+Theorem C07_remap_val_identity :
+  forall (R : remapper) (ctx : option str) (T : rty) (v v' : val),
+    renames_nothing R ->
+    deleg_ok gen_table (ref_types type_defs) T = true ->
+    has_ty type_defs T v = true ->
+    remap_val gen_table R ctx T v = Ok v' -> v' = v.
+Proof. exact remap_val_identity. Qed.
+Print Assumptions C07_remap_val_identity.
+
+Theorem C07_remap_class_identity :
+  forall (R : remapper) (ctx : option str) (v v' : val),
+    renames_nothing R ->
+    has_ty type_defs (TName "ClassFile") v = true ->
+    remap_val gen_table R ctx (TName "ClassFile") v = Ok v' -> v' = v.
+Proof. exact remap_class_identity. Qed.
+Print Assumptions C07_remap_class_identity.
+
+Theorem C07_type_defs_nodup : defs_nodup type_defs = true.
+Proof. exact type_defs_nodup. Qed.
+Print Assumptions C07_type_defs_nodup.
+
+Theorem C07_identity_example : identity_example.
+Proof. exact identity_example_holds. Qed.
+Print Assumptions C07_identity_example.
+
+(* COMPOSITION: remapping with f and then with g is remapping once with [comp f g] (g's answers about f's answers; the
+   `Compose` remapper of the harness).  [wf_first f]: f's class answers can be read again (not empty, no `;`, not starting
+   with `[`; valid exactly when the name asked about is), its field answers are field names with the class-by-class rewritten
+   descriptor.  [ctx_rel]: the class name handed down in the second pass is what f answers for the one of the first.
+   For the specification over any type definitions [sib_defs_ok] … *)
+Theorem C07_spec_composition :
+  forall defs S f g,
+    wf_first f -> defs_nodup defs = true -> sib_defs_ok defs S ->
+    forall v T ctx ctx1 v1, has_ty defs T v = true -> ctx_rel f ctx ctx1 ->
+      spec_val defs S f ctx T v = Ok v1 ->
+      spec_val defs S g ctx1 T v1 = spec_val defs S (comp f g) ctx T v.
+Proof. exact spec_val_comp. Qed.
+Print Assumptions C07_spec_composition.
+
+(* … and for the interpreter of the table regenerated from remap.rs *)
+Theorem C07_remap_val_composition :
+  forall (f g : remapper) (ctx ctx1 : option str) (T : rty) (v v1 : val),
+    wf_first f ->
+    deleg_ok gen_table (ref_types type_defs) T = true ->
+    has_ty type_defs T v = true ->
+    ctx_rel f ctx ctx1 ->
+    remap_val gen_table f ctx T v = Ok v1 ->
+    remap_val gen_table g ctx1 T v1 = remap_val gen_table (comp f g) ctx T v.
+Proof. exact remap_val_comp. Qed.
+Print Assumptions C07_remap_val_composition.
+
+Theorem C07_remap_class_composition :
+  forall (f g : remapper) (v v1 : val),
+    wf_first f ->
+    has_ty type_defs (TName "ClassFile") v = true ->
+    remap_val gen_table f None (TName "ClassFile") v = Ok v1 ->
+    remap_val gen_table g None (TName "ClassFile") v1 = remap_val gen_table (comp f g) None (TName "ClassFile") v.
+Proof. exact remap_class_comp. Qed.
+Print Assumptions C07_remap_class_composition.
+
+(* what a pass returns is well-typed again (typing depends on the shape only) *)
+Theorem C07_remap_val_has_ty :
+  forall (R : remapper) (ctx : option str) (T : rty) (v v1 : val),
+    deleg_ok gen_table (ref_types type_defs) T = true ->
+    has_ty type_defs T v = true ->
+    remap_val gen_table R ctx T v = Ok v1 -> has_ty type_defs T v1 = true.
+Proof. exact remap_val_has_ty. Qed.
+Print Assumptions C07_remap_val_has_ty.
+
+(* the finite side condition on the regenerated definitions (ClassFile.name is a class-name leaf, ElementValue::Enum.type_name
+   a descriptor leaf) *)
+Theorem C07_type_defs_sib_ok : sib_defs_ok type_defs (ref_types type_defs).
+Proof. exact type_defs_sib_ok. Qed.
+Print Assumptions C07_type_defs_sib_ok.
+
+(* valid answers are enough for [wf_first] *)
+Theorem C07_valid_answers_wf :
+  forall f,
+    (forall c n, rm_class f c = Ok (Some n) ->
+                 C18.Model.is_valid_obj_class_name c = true /\ C18.Model.is_valid_obj_class_name n = true) ->
+    (forall o n d n' d', rm_field f o n d = Ok (Some (n', d')) ->
+                         C18.Model.is_valid_unqualified_name n' = true /\ map_desc f d = Ok d') ->
+    wf_first f.
+Proof. exact valid_answers_wf. Qed.
+Print Assumptions C07_valid_answers_wf.
+
+(* non-vacuity, and the hypothesis on the first remapper cannot be dropped *)
+Theorem C07_composition_example : comp_example.
+Proof. exact comp_example_holds. Qed.
+Print Assumptions C07_composition_example.
+
+(* ------------------------------------------------------------------ *)
+(* Every occurrence (C07/Occ.v).  [sub_ty defs S p T ctx v]: the sub-value of v at path p, with its type and the class
+   name handed down to it (everything inside a ClassFile stands in that ClassFile's original name); [sub p v1]: the value
+   at the same path of the result. *)
+
+(* LOCALITY: what remapping leaves at a path is the remapping of the sub-value that stood there *)
+Theorem C07_spec_locality :
+  forall defs S R p v T ctx v1 T' ctx' x,
+    spec_val defs S R ctx T v = Ok v1 ->
+    sub_ty defs S p T ctx v = Some (T', ctx', x) ->
+    exists x1, sub p v1 = Some x1 /\ spec_val defs S R ctx' T' x = Ok x1.
+Proof. exact spec_val_sub. Qed.
+Print Assumptions C07_spec_locality.
+
+(* Th 3 for whole trees and the interpreter of the regenerated table: EVERY FieldRef / MethodRef anywhere in a well-typed
+   tree comes out as map_field / map_method asked with the owner the reference names (array-class owners keep name and
+   descriptor), EVERY declared Field / Method with the name and descriptor map_field / map_method answer for the class
+   name handed down to it *)
+Theorem C07_member_refs_use_owner_tree : member_refs_use_owner_tree_stmt.
+Proof. exact member_refs_use_owner_tree. Qed.
+Print Assumptions C07_member_refs_use_owner_tree.
+
+(* … which, for the members of a ClassFile, is that ClassFile's original name *)
+Theorem C07_class_members_ctx :
+  forall k p fs ctx T' ctx' x c,
+    sub_ty type_defs (ref_types type_defs) (PField k :: PIndex p :: nil) (TName "ClassFile") ctx (VNode "ClassFile" "" fs) = Some (T', ctx', x) ->
+    str_field fs "name" = Ok c -> ctx' = Some c.
+Proof. exact sub_ty_class_ctx. Qed.
+Print Assumptions C07_class_members_ctx.
+
+Theorem C07_occurrence_example : occ_example.
+Proof. exact occ_example_holds. Qed.
+Print Assumptions C07_occurrence_example.
